@@ -47,7 +47,7 @@ BANDS = {
 
 
 def bounds(tier):
-    return dict(bands=BANDS[tier], target_alphabet="ACG", atoms=ATOMS,
+    return dict(bands=BANDS[tier], target_alphabet="ACG", atoms=ATOMS, target_kinds=KINDS,
                 groups="non-nested capture groups, possibly empty or around a starred atom",
                 ranges="every (pos,endpos) in [0,n+1]^2 for the grid kinds up to the grid length; "
                        "(0,None),(1,None),(0,n-1),(1,n) for the remaining kinds and lengths",
